@@ -93,6 +93,9 @@ StructuralClauses(e) ==
      /\ Chk("RateSubscriptsInBounds", e.max_k_assigned < e.nreac)
      /\ Chk("SubscriptsInBounds", e.max_y < e.neq /\ e.max_ydot < e.neq /\ e.max_k < e.nreac
                                    /\ (e.max_kc < 0 \/ e.max_kc < e.ncool) /\ (e.max_kh < 0 \/ e.max_kh < e.nheat))
+     /\ IF "same_values" \in DOMAIN e      \* Structure events: this back-end against the first one, cell by cell (monomials per rate symbol + wrapper)
+          THEN Chk("SameValueAtTheSameCell", e.same_values)
+          ELSE TRUE
      /\ IF e.has_csr
           THEN /\ Chk("CsrComplete", e.csr_holes = 0)
                /\ Chk("CsrWellFormed", CsrWellFormed(e.rowptr, e.colval, e.nnz, e.neq))
